@@ -67,8 +67,17 @@ Desc(d) == d.kind \o "@" \o ToString(d.at) \o "=" \o ToString(d.val)
 
 (* pairs only across independent groups; the code strips a zero-padded FAT   *)
 (* relative to the file's sector count, which no other deviation touches     *)
+KindRank(k) ==
+  CASE k = "red_red" -> 1 [] k = "unterminated" -> 2 [] k = "root_name" -> 3 [] k = "stream_clsid" -> 4
+    [] k = "stream_ctime" -> 5 [] k = "stream_mtime" -> 6 [] k = "storage_start" -> 7 [] k = "storage_size" -> 8
+    [] k = "hdr_nfat" -> 9 [] k = "hdr_ndifat" -> 10 [] k = "hdr_nminifat" -> 11 [] k = "hdr_ndir_v3" -> 12 [] OTHER -> 13
 Pairs(l) == {<<a, b>> \in Singles(l) \X Singles(l) : a.grp = "alloc" /\ b.grp \in {"dir", "hdr"}}
             \cup {<<a, b>> \in Singles(l) \X Singles(l) : a.grp = "dir" /\ b.grp = "hdr"}
+            \* different leniencies of the same group, in particular on the same entry (each is
+            \* normalised by its own code path; they must not shadow each other)
+            \cup {<<a, b>> \in Singles(l) \X Singles(l) :
+                    a.grp = b.grp /\ a.grp \in {"dir", "hdr"} /\ KindRank(a.kind) < KindRank(b.kind)
+                    /\ (a.grp = "dir" => (a.kind = "red_red" \/ b.kind = "root_name" \/ a.at = b.at))}
 
 EmitDeviations ==
   phase = "done" =>
